@@ -1,5 +1,8 @@
 #![no_main]
-use libfuzzer_sys::fuzz_target;
+//! libFuzzer target for C20: the input is the property's scenario as JSON (see harness/checks/src/fuzz.rs).
+use libfuzzer_sys::{fuzz_mutator, fuzz_target};
+type P = checks::c20::C20;
 fuzz_target!(|data: &[u8]| {
-    checks::fuzz::run::<checks::c20::C20>(data);
+    checks::fuzz::run::<P>(data);
 });
+fuzz_mutator!(|data: &mut [u8], size: usize, max_size: usize, seed: u32| { checks::fuzz::mutate::<P>(data, size, max_size, seed) });
